@@ -128,16 +128,22 @@ Definition check_shape (g : gridspec) (sh : list nat) : option layout :=
 Definition grid_ds (g : gridspec) : list nat := match g with GStruct ds _ => ds | GNo _ => [] end.
 Definition grid_orderF (g : gridspec) : bool := match g with GStruct _ o => o | GNo _ => false end.
 
-Definition apply_layout (g : gridspec) (lay : layout) (a : arr) : arr :=
+(** shape and C-order element list after the layout step; [LReshape] is
+    [data.reshape([te] + data_shape, order=grid.order)] (141-149) of a 1-d array *)
+Definition lay_shape (g : gridspec) (lay : layout) (sh : list nat) : list nat :=
   match lay with
-  | LKeep => a
-  | LExpand => mkA (1%nat :: a_shape a) (a_data a) (a_mask a)
-  | LReshape te =>
-      let sh' := te :: grid_ds g in
-      if grid_orderF g
-      then mkA sh' (permF sh' (a_data a) 0%Q) (option_map (fun m => permF sh' m false) (a_mask a))
-      else mkA sh' (a_data a) (a_mask a)
+  | LKeep => sh
+  | LExpand => 1%nat :: sh
+  | LReshape te => te :: grid_ds g
   end.
+Definition lay_list {X : Type} (g : gridspec) (lay : layout) (l : list X) (d : X) : list X :=
+  match lay with
+  | LReshape te => if grid_orderF g then permF (te :: grid_ds g) l d else l
+  | _ => l
+  end.
+Definition apply_layout (g : gridspec) (lay : layout) (a : arr) : arr :=
+  mkA (lay_shape g lay (a_shape a)) (lay_list g lay (a_data a) 0%Q)
+      (option_map (fun m => lay_list g lay m false) (a_mask a)).
 
 (** [np.ma.array(data=..., mask=info.mask)] (72-81, 88-98) accepts a mask of one element or of
     the data's size, otherwise raises MaskError *)
@@ -150,9 +156,9 @@ Definition mask_ok (m : maskspec) (a : arr) : bool :=
 (** The mask of the prepared array: a masked payload keeps its own mask (it travels with the
     data through the reshape); a plain payload gets the mask of the info, located at the
     cells of the grid's data shape.
-    (The code wraps before [_check_input_shape]; numpy flattens the mask in C order.  This is
-    observably the same except for flat payloads on F-ordered grids, where the code misplaces
-    the mask - reported as a finding; the model states the demanded behaviour.) *)
+    (The code wraps before [_check_input_shape] and, for flat data, flattens the mask in the
+    grid's order ([_mask_for], fix F10), so that the later reshape puts every bit back on its
+    cell; the model attaches the mask after the reshape, which is observably the same.) *)
 Definition attach_mask (m : maskspec) (own : option (list bool)) (a : arr) : arr :=
   match m, own with
   | MBits bits, None =>
@@ -190,8 +196,11 @@ Definition shares (b1 b2 : buf) : bool :=       (* np.may_share_memory: same all
 
 Definition lstate := OutputM.state entry.
 
-Definition last_entry (h : OutputM.hist entry) : option entry :=
-  match rev h with [] => None | (_, e) :: _ => Some e end.
+Fixpoint last_entry (h : OutputM.hist entry) : option entry :=     (* self.data[-1][1] *)
+  match h with
+  | [] => None
+  | (_, e) :: r => match r with [] => Some e | _ :: _ => last_entry r end
+  end.
 
 Definition lpush (inf : info) (s : lstate) (t : Z) (p : payload) : lstate * option ecls :=
   match prepare inf p with
